@@ -94,6 +94,7 @@ type MITM struct {
 	// Hook is called for Kind "advance" while the message is held back.
 	Hook func()
 
+	wg        sync.WaitGroup
 	mu        sync.Mutex
 	Seen      [2]int // messages fully forwarded per direction
 	Applied   bool   // the fault's message was reached
@@ -106,6 +107,10 @@ func (m *MITM) note(f func()) {
 	f()
 	m.mu.Unlock()
 }
+
+// Wait blocks until both directions of every interposed stream have ended
+// (and with them any Hook call).
+func (m *MITM) Wait() { m.wg.Wait() }
 
 // Status reports what happened.
 func (m *MITM) Status() (seen [2]int, applied bool, hostErr, harness string) {
@@ -129,8 +134,9 @@ func (m *MITM) Interpose(stream int) func(n int, client, server net.Conn) (net.C
 		client.Close()
 		server.Close()
 		closeAll := func() { mc.Close(); ms.Close() }
-		go m.pump(R2H, mc, ms, closeAll)
-		go m.pump(H2R, ms, mc, closeAll)
+		m.wg.Add(2)
+		go func() { defer m.wg.Done(); m.pump(R2H, mc, ms, closeAll) }()
+		go func() { defer m.wg.Done(); m.pump(H2R, ms, mc, closeAll) }()
 		return c2, s2
 	}
 }
